@@ -218,6 +218,46 @@ class CurrentStatus(Kernel):
         ob.twin("twin.status_always_open", st.variant == "Open")
 
 
+class Monotone(Kernel):
+    """decisions persist: once is_passed (is_rejected) answers true it keeps answering true after any further votes and after
+    expiry (these are the facts the contract-level VCs C03/C05/C06/C15 assume about the kernel)"""
+
+    def __init__(self, kind, nine):
+        self.kind, self.nine = kind, nine
+        self.name = f"C04.monotone.{kind}.{'9dec' if nine else '18dec'}"
+
+    def run(self, I, ctx, ob):
+        prop, blk, d = mk_proposal(I, ctx, self.kind, False, self.nine)
+        total = d["total"]
+        y, n, a, v = [ctx.fresh_int(f"more.{k}", 0, U64) for k in ("yes", "no", "abstain", "veto")]
+        ctx.assume(d["yes"] + d["no"] + d["ab"] + d["veto"] + y + n + a + v <= total)
+        votes2 = Struct("Votes", [d["yes"] + y, d["no"] + n, d["ab"] + a, d["veto"] + v], ["yes", "no", "abstain", "veto"])
+        prop2 = prop.with_("votes", votes2)
+        later_expired = ctx.choose([True, True], "later block expired?") == 0
+        h2 = ctx.fresh_int("later.height", 0, U64)
+        ctx.assume(h2 >= blk.get("height"))
+        ctx.assume(h2 >= prop.get("expires").fields[0] if later_expired else h2 < prop.get("expires").fields[0])
+        blk2 = Struct("BlockInfo", [h2, blk.get("time"), "chain"], blk.names)
+        res = []
+        for p_, b_ in ((prop, blk), (prop2, blk2)):
+            pc, bc = Cell("prop", p_), Cell("blk", b_)
+            o1, ps = call_fn(I, ctx, "Proposal::is_passed", [Ref(pc), Ref(bc)])
+            o2, rj = call_fn(I, ctx, "Proposal::is_rejected", [Ref(pc), Ref(bc)])
+            res.append((o1, ps, o2, rj))
+        ob.outcome = "/".join(r[0] + r[2] for r in res)
+        d["h"], d["eh"] = blk.get("height"), prop.get("expires").fields[0]
+        d["predicted"] = {"panic": any(r[0] == "panic" or r[2] == "panic" for r in res)}
+        if res[0][0] == "ret": d["predicted"]["is_passed"] = res[0][1]
+        ob.info["kernel"] = d
+        ob.require("C04.no_panic_for_valid_thresholds", not d["predicted"]["panic"])
+        if d["predicted"]["panic"]: return
+        ob.require("C04.passed_persists_under_more_votes_and_expiry", zimplies(res[0][1], res[1][1]))
+        ob.require("C04.rejected_persists_under_more_votes_and_expiry", zimplies(res[0][3], res[1][3]))
+        ob.witness("persisting_pass", zand(res[0][1], y + n + a + v > 0))
+        ob.witness("persisting_reject", zand(res[0][3], y + n + a + v > 0))
+        ob.twin("twin.later_tally_never_passes", znot(res[1][1]))
+
+
 KINDS = ["AbsoluteCount", "AbsolutePercentage", "ThresholdQuorum"]
 
 
@@ -228,6 +268,8 @@ def vcs(tier):
             out.append(Decide(k, exp, True))
             if k != "AbsoluteCount" and exp: out.append(Decide(k, exp, False))
         out.append(CurrentStatus(k))
+        out.append(Monotone(k, True))
+        if k != "AbsoluteCount" and tier == "thorough": out.append(Monotone(k, False))
     return out
 
 
